@@ -23,7 +23,7 @@ PROPS = {
     "C15": {
         "case_sets": ["lex"],
         "ops": ["SPLIT"],
-        "lean_targets": ["PqlModel.Props.C15", "PqlModel.Props.C15Parse"],
+        "lean_targets": ["PqlModel.Props.C15", "PqlModel.Props.C15Parse", "PqlModel.Props.C16Semantics"],
         "facts": ["keywords"],
         "rule": "SPLIT: same sources as C09 (exhaustive short strings over the scanner alphabet, which contains ';', all "
                 "three quote characters, backslash, newline and the comment opener, plus random fragment concatenations); "
@@ -53,7 +53,7 @@ PROPS = {
         "case_sets": ["parse"],
         "ops": ["PARSE", "PARSEV", "LINECOL"],
         "oracle_clauses": [r"c10-.*", r"unreadable-.*"],
-        "lean_targets": ["PqlModel.Props.C10", "PqlModel.Props.C08Full", "PqlModel.Props.C10Linecol", "PqlModel.Props.C10Failed", "PqlModel.Props.C10Extent"],
+        "lean_targets": ["PqlModel.Props.C10", "PqlModel.Props.C08Full", "PqlModel.Props.C10Linecol", "PqlModel.Props.C10Failed", "PqlModel.Props.C10Extent", "PqlModel.Props.C10Compile"],
         "facts": ["structFields", "spanUnion"],
         "rule": "same sources as C07 in multi-line / tab / comment / non-ASCII layouts; every span field and every Span() "
                 "result of every node (reflection) is compared with the model and checked against the token positions; "
@@ -63,7 +63,7 @@ PROPS = {
         "case_sets": ["walk"],
         "ops": ["WALK"],
         "oracle_clauses": [r"c11-.*", r"unreadable-.*"],
-        "lean_targets": ["PqlModel.Props.C11", "PqlModel.Props.C11b"],
+        "lean_targets": ["PqlModel.Props.C11", "PqlModel.Props.C11b", "PqlModel.Props.C11Compile"],
         "facts": ["structFields", "walkCases", "walkLoops", "walkDefaultPanics"],
         "rule": "WALK: grammar-generated programs (every node type in every child position) walked with a visitor that "
                 "always returns true and with pseudo-random pruning masks; non-trivial = distinct (source, mask) that parses",
@@ -93,7 +93,7 @@ PROPS = {
         "case_sets": ["content"],
         "ops": ["COMPILE", "COMPILE2", "QUOTE"],
         "oracle_clauses": [r"c04-.*", r"c05-lex", r"unreadable-.*"],
-        "lean_targets": ["PqlModel.Props.C04", "PqlModel.Props.C05LexStatement", "PqlModel.Props.C04Shape", "PqlModel.Props.C04ShapeQuery", "PqlModel.Props.C04ShapeCx"],
+        "lean_targets": ["PqlModel.Props.C04", "PqlModel.Props.C05LexStatement", "PqlModel.Props.C04Shape", "PqlModel.Props.C04ShapeQuery", "PqlModel.Props.C04ShapeCx", "PqlModel.Props.C04Numbers"],
         "facts": [],
         "rule": "QUOTE: both quoting functions on every string over a 13-symbol adversarial alphabet up to length 3 (quick) / 4 "
                 "(thorough) and random longer ones; COMPILE2: generated programs compiled twice with the contents of all string "
@@ -125,7 +125,7 @@ PROPS = {
         "case_sets": ["compile"],
         "ops": ["COMPILE", "COMPILESEQ"],
         "oracle_clauses": [r"c13-.*", r"unreadable-.*"],
-        "lean_targets": ["PqlModel.Props.C13", "PqlModel.Props.C13Exact"],
+        "lean_targets": ["PqlModel.Props.C13", "PqlModel.Props.C13Exact", "PqlModel.Props.C13Arity"],
         "facts": ["writerArityGuard", "knownFunctions", "joinTypes"],
         "rule": "COMPILE on generated programs, the same with a token corrupted, and a corpus of every documented misuse; the oracle "
                 "evaluates the Misuse predicate on the parsed program and requires error iff (parse error or misuse); "
@@ -149,7 +149,7 @@ PROPS = {
         "case_sets": ["cli"],
         "ops": ["CLI"],
         "oracle_clauses": [r"c16-.*", r"unreadable-.*"],
-        "lean_targets": ["PqlModel.Props.C16a", "PqlModel.Props.C16", "PqlModel.Props.C16IO"],
+        "lean_targets": ["PqlModel.Props.C16a", "PqlModel.Props.C16", "PqlModel.Props.C16IO", "PqlModel.Props.C16Semantics"],
         "facts": [],
         "rule": "CLI: the built cmd/pql binary on scripts (sequences of let / query / invalid statements, several per line, across "
                 "lines, comments, blank lines, CRLF, final statement terminated or not, lines around the 64 KiB limit) via stdin, "
@@ -175,7 +175,7 @@ PROPS = {
         "ops": ["EVAL"],
         "line_regex": r"6a6f696e",      # only pipelines that contain a join
         "oracle_clauses": [r"c03-.*", r"c05-parse", r"c05-name-capture", r"unreadable-.*"],
-        "lean_targets": ["PqlModel.Props.C03", "PqlModel.Props.C02Split", "PqlModel.Props.C05SplitRefines", "PqlModel.Props.C03Semantics", "PqlModel.Props.C03Chain", "PqlModel.Props.C03ChainTake", "PqlModel.Props.C05ParseStatement", "PqlModel.Props.C03Full", "PqlModel.Props.C02EndToEnd", "PqlModel.Props.C05Parsed"],
+        "lean_targets": ["PqlModel.Props.C03", "PqlModel.Props.C02Split", "PqlModel.Props.C05SplitRefines", "PqlModel.Props.C03Semantics", "PqlModel.Props.C03Chain", "PqlModel.Props.C03ChainTake", "PqlModel.Props.C05ParseStatement", "PqlModel.Props.C03Full", "PqlModel.Props.C02EndToEnd", "PqlModel.Props.C05Parsed", "PqlModel.Props.C11Compile"],
         "facts": ["joinTypes", "leftJoinTableAlias", "rightJoinTableAlias"],
         "rule": "EVAL on pipelines with joins: all three kinds, bare / explicit / mixed conditions, operators before the join, "
                 "multi-operator right sides, nested and sequential joins (depth <= 2 random, corpus of shapes); evaluated as for C02; "
